@@ -17,6 +17,8 @@ RULES = {
     "R13.3": "window form: the window is the last `threshold` validation losses (iter().rev().take(threshold)); `increasing` starts true "
              "and is cleared iff some adjacent pair over 0..threshold-1 satisfies newer <= older (strictness)",
 }
+RULES["R13.3"] += " | the window flag is either `true` cleared by the loop over 0..T-1 on history[i] <= history[i+1], or the conjunction (0..T-1).all(|k| history[k] > history[k+1]); immutable aliases of the threshold (casts, lets) denote T"
+RULES["R13.2"] += " | stated on path conditions (enclosing branches and earlier diverging guard clauses): the break is reached exactly under Some(threshold), epoch > threshold (canonical integer comparison, also in negated guard-clause form) and the window flag; nothing unrelated on the way; once the flag holds the loop is always left; the first stop-check statement is evaluated on every path through an epoch"
 ASSUMPTIONS = ["the early-stopping predicate over concrete loss trajectories is not evaluated; only its form is compared with the contract"]
 TRUSTED = ["rustc nightly front end", "driver/src/main.rs", "sa/e4.py path enumeration", "sa/e1.py"]
 
